@@ -17,9 +17,25 @@ CTYPES = {'schar': ('int', 1, False), 'uchar': ('int', 1, True), 'short': ('int'
           'int': INT, 'uint': ('int', 4, True), 'long': LONG, 'ulong': ULONG}
 
 
+def unq(t):
+    """the unqualified version of a type: an _Atomic-qualified integer type is the 4-tuple t + ('A',)"""
+    return t[:3] if t[0] == 'int' else t
+
+
+def atomic(t):
+    """the _Atomic-qualified version of an integer type"""
+    return unq(t) + ('A',) if t[0] == 'int' else t
+
+
+def is_atomic(t):
+    return t[0] == 'int' and len(t) > 3
+
+
 def tname(t):
     if t[0] == 'ptr':
         return tname(t[1]) + ' *'
+    if is_atomic(t):
+        return '_Atomic ' + tname(unq(t))
     for n, x in CTYPES.items():
         if x == t:
             return {'schar': 'signed char', 'uchar': 'unsigned char', 'ushort': 'unsigned short', 'uint': 'unsigned int', 'ulong': 'unsigned long'}.get(n, n)
@@ -42,7 +58,7 @@ def wrap(t, v):
 def promote(t):
     if t[0] != 'int':
         raise NotInSubset('arithmetic on a non-integer')
-    return INT if t[1] < 4 else t
+    return INT if t[1] < 4 else unq(t)
 
 
 def uac(a, b):
@@ -128,6 +144,7 @@ class TypedEval:
     def parse_type(self, toks, tenv):
         toks = list(toks)
         stars = 0
+        qual_atomic = False
         while toks and toks[-1] == ('p', '*'):
             toks.pop(); stars += 1
         words = []
@@ -150,6 +167,8 @@ class TypedEval:
                     raise NotInSubset('empty typeof')
                 if base is not None:
                     raise NotInSubset('two type specifiers')
+                if t[1] == '_Atomic':
+                    qual_atomic = True
                 ps = Parser(inner + [('p', ';')], typenames=tuple(self.typedefs))
                 if ps.is_type():
                     tt = ps.skip_type()
@@ -168,6 +187,7 @@ class TypedEval:
             if t[0] != 'id':
                 raise NotInSubset('type name token %r' % (t,))
             if t[1] in ('const', 'volatile', 'static', 'register', '_Atomic', 'restrict'):
+                qual_atomic = qual_atomic or t[1] == '_Atomic'
                 i += 1; continue
             if t[1] in self.typedefs:
                 if base is not None:
@@ -195,6 +215,12 @@ class TypedEval:
                 raise NotInSubset('type %s' % ' '.join(words))
         if base is None:
             raise NotInSubset('no type specifier')
+        if qual_atomic:
+            # the qualifier belongs to the specified type (the pointee when a `*` follows); typeof keeps the qualifiers of its operand
+            # (chibicc hands the very Type object on, is_atomic included)
+            if base[0] != 'int':
+                raise NotInSubset('_Atomic on a non-integer type')
+            base = atomic(base)
         for _ in range(stars):
             base = ('ptr', base)
         return base
@@ -235,13 +261,13 @@ class TypedEval:
             a, b = self.ty(e[2], tenv), self.ty(e[3], tenv)
             return a if a[0] == 'ptr' else (b if b[0] == 'ptr' else uac(a, b))
         if k == 'comma':
-            return self.ty(e[2], tenv)
+            return unq(self.ty(e[2], tenv))
         if k == 'cast':
             if len(e) < 3:
                 raise NotInSubset('cast without a recorded type')
             return self.parse_type(e[2], tenv)
         if k == 'assign':
-            return self.ty(e[2], tenv)
+            return unq(self.ty(e[2], tenv))
         if k == 'call':
             if e[1] == '__builtin_compare_and_swap':
                 return BOOL
@@ -249,7 +275,7 @@ class TypedEval:
                 t = self.ty(e[2][0], tenv)
                 if t[0] != 'ptr':
                     raise NotInSubset('exchange on a non-pointer')
-                return t[1]
+                return unq(t[1])
             raise NotInSubset('call of %s' % e[1])
         if k == 'stmtexpr':
             inner = dict(tenv)
@@ -465,10 +491,14 @@ class TypedEval:
             if tl[0] != 'int' or tr[0] != 'int':
                 raise NotInSubset('compound assignment on a pointer')
             bop = op[:-1]
-            if isinstance(cell, TShared):
+            if isinstance(cell, TShared) and is_atomic(self.ty(lhs, te)):
+                # the compiler rewrites op= to the compare-exchange loop exactly when the static type of the lvalue carries _Atomic
+                # (parse.c to_assign tests binary->lhs->ty->is_atomic; C16 R16.1/R16.2): one indivisible update; value = new value,
+                # or the old one for x++. Through an lvalue of unqualified type the same object gets a plain load, the operation and
+                # a plain store - other threads run in between.
                 if bop not in PYOP:
                     raise NotInSubset('op= %s on the atomic object' % op)
-                new = cell.rmw(bop, r)          # one indivisible update (C16 R16.1/R16.2); value = new value, or the old one for x++
+                new = cell.rmw(bop, r)
                 return cell.updates[-1][0] if post else new
             old = cell.get()
             t = promote(tl) if bop in ('<<', '>>') else uac(tl, tr)
@@ -487,3 +517,116 @@ class TypedEval:
             cell.set(v)
             return old if post else v
         raise NotInSubset(k)
+
+
+# ------------------------------------------------------------------ the atomic_* typedefs of C11 7.17.6 ---
+# name -> (kind, size, unsigned) of the corresponding direct type on x86-64 System V / glibc (<stdint.h>, <stddef.h>, <uchar.h>, <wchar.h>:
+# int_fastN_t is long for N >= 16, char16_t/char32_t are uint_least16_t/uint_least32_t, wchar_t is int, plain char is signed)
+def _c11_atomic_typedefs():
+    s1, u1, s2, u2, s4, u4, s8, u8 = [('int', n, u) for n in (1, 2, 4, 8) for u in (False, True)]
+    d = {'atomic_bool': ('bool', 1, True), 'atomic_char': s1, 'atomic_schar': s1, 'atomic_uchar': u1, 'atomic_short': s2, 'atomic_ushort': u2,
+         'atomic_int': s4, 'atomic_uint': u4, 'atomic_long': s8, 'atomic_ulong': u8, 'atomic_llong': s8, 'atomic_ullong': u8,
+         'atomic_char16_t': u2, 'atomic_char32_t': u4, 'atomic_wchar_t': s4,
+         'atomic_intptr_t': s8, 'atomic_uintptr_t': u8, 'atomic_size_t': u8, 'atomic_ptrdiff_t': s8, 'atomic_intmax_t': s8, 'atomic_uintmax_t': u8}
+    for n, (s, u) in ((8, (s1, u1)), (16, (s2, u2)), (32, (s4, u4)), (64, (s8, u8))):
+        d['atomic_int_least%d_t' % n] = s; d['atomic_uint_least%d_t' % n] = u
+        d['atomic_int_fast%d_t' % n] = s if n == 8 else s8; d['atomic_uint_fast%d_t' % n] = u if n == 8 else u8
+    return d
+
+
+C11_ATOMIC_TYPEDEFS = _c11_atomic_typedefs()
+
+
+def header_decls(text):
+    """the non-directive part of a header as tokens, split into declarations at top-level `;`; plus the directive lines [(name, rest)]"""
+    import re
+    from .lib_minic import tokenize
+    text = re.sub(r'/\*.*?\*/', ' ', text, flags=re.S)
+    text = re.sub(r'\\\n', ' ', text)
+    directives = []
+    code = []
+    for line in text.split('\n'):
+        m = re.match(r'[ \t]*#[ \t]*(\w*)(.*)$', line)
+        if m:
+            directives.append((m.group(1), re.sub(r'//.*$', '', m.group(2)).strip()))
+        else:
+            code.append(line)
+    toks = tokenize('\n'.join(code))
+    decls = [[]]
+    depth = 0
+    for t in toks:
+        if t == ('p', '{'):
+            depth += 1
+        elif t == ('p', '}'):
+            depth -= 1
+        if t == ('p', ';') and depth == 0:
+            decls.append([])
+        else:
+            decls[-1].append(t)
+    return [d for d in decls if d], directives
+
+
+def typedef_type(toks, known):
+    """(atomic?, (kind, size, unsigned)) of `typedef <toks-without-the-name>`; `known` = earlier typedef names -> such pairs.
+    Accepts the qualifier in any position and the specifier form _Atomic(T), the way declspec does (C16 R16.6 decides that both
+    spellings set is_atomic). A declarator with `*` makes a (non-atomic) pointer."""
+    toks = list(toks)
+    is_at = False
+    words = []
+    base = None
+    i = 0
+    while i < len(toks):
+        t = toks[i]
+        if t == ('p', '*'):
+            if any(x != ('p', '*') and x not in (('id', 'const'), ('id', 'volatile'), ('id', 'restrict')) for x in toks[i:]):
+                raise NotInSubset('declarator')
+            return False, ('ptr', 8, True)
+        if t[0] != 'id':
+            raise NotInSubset('token %r in a typedef' % (t[1],))
+        if t[1] == '_Atomic' and i + 1 < len(toks) and toks[i + 1] == ('p', '('):
+            d = 0; j = i + 1
+            while j < len(toks):
+                if toks[j] == ('p', '('):
+                    d += 1
+                elif toks[j] == ('p', ')'):
+                    d -= 1
+                    if d == 0:
+                        break
+                j += 1
+            if j >= len(toks) or base is not None or words:
+                raise NotInSubset('_Atomic( ) specifier')
+            _, base = typedef_type(toks[i + 2:j], known)
+            is_at = True
+            i = j + 1; continue
+        if t[1] == '_Atomic':
+            is_at = True
+        elif t[1] in ('const', 'volatile'):
+            pass
+        elif t[1] in ('char', 'short', 'int', 'long', 'signed', 'unsigned', '_Bool'):
+            words.append(t[1])
+        elif t[1] in known and base is None and not words:
+            a, base = known[t[1]]
+            is_at = is_at or a
+        else:
+            raise NotInSubset('type specifier %s' % t[1])
+        i += 1
+    if words:
+        if base is not None:
+            raise NotInSubset('two type specifiers')
+        uns = 'unsigned' in words
+        core = sorted(x for x in words if x not in ('signed', 'unsigned', 'int'))
+        if core == [] :
+            base = ('int', 4, uns)
+        elif core == ['char']:
+            base = ('int', 1, uns)
+        elif core == ['short']:
+            base = ('int', 2, uns)
+        elif core in (['long'], ['long', 'long']):
+            base = ('int', 8, uns)
+        elif core == ['_Bool'] and len(words) == 1:
+            base = ('bool', 1, True)
+        else:
+            raise NotInSubset('type %s' % ' '.join(words))
+    if base is None:
+        raise NotInSubset('no type specifier')
+    return is_at, base
